@@ -11,8 +11,8 @@ ROOT = os.path.dirname(os.path.dirname(os.path.abspath(__file__)))
 MARK = '## 9. Build record'
 
 NOTES = {
-    'C01': 'parts: PBF (Model/Pbf, PbfMsg, StringTable, Delta; byte-exact writer correspondence, cross reads, block-accounting stream, framing walker) and text (Model/OplFmt, XmlFmt over an explicit ExpatContract; byte-exact writers, cross reads, real-write→real-read monitor). Proved: delta/string-table/packed round trips, PBF Info + node/way/relation field round trips (node also at bytes level), header round trip with boxes, block limits (count ≤ 8000, message ≤ 32 MiB or the writer raises), OPL round trip for all object kinds and option vectors, XML round trip for node/way/relation + file/header/change-file theorems. Not proved (correspondence only): PBF dense nodes / whole block / whole file round trip, XML changesets with discussions, multi-buffer XML files.',
-    'C02': 'parts: PBF spec encoder with explicit choice vector (field order, dense/plain, granularity, offsets, unknown fields, indexdata, table layout) read by the real Reader and the model; text spec renderers; o5m spec encoder + decoder model. Proved: field-order irrelevance and unknown-field skipping for the PBF messages, any BlobHeader size ≤ 64 KiB, o5m reference-table ring theorem and o5m_decode_spec, OPL separator/junk-line/default theorems. `_partial`: full pbf_decode_spec (Info message only), opl/xml decode_spec over the whole choice space.',
+    'C01': 'parts: PBF (Model/Pbf, PbfMsg, StringTable, Delta; byte-exact writer correspondence, cross reads, block-accounting stream, independent framing walker) and text (Model/OplFmt, XmlFmt over an explicit ExpatContract; byte-exact writers, cross reads, real-write→real-read monitor over options × compressions). Proved at full strength: delta/string-table/packed round trips; PBF Info, node, way, relation and dense-node round trips at field and byte level; pbf_block_roundtrip and pbf_file_roundtrip (decodeFile (encodeFile opts h objs) = (projectHeader, objs.map project) whenever the writer succeeds); header round trip with boxes; size estimate sound and block limits (≤ 8000 entities, blob ≤ 32 MiB or the writer raises — the proof exposed the 5-byte blob-size gap fixed in 77d5451); opl_roundtrip and opl_file_roundtrip; xml_roundtrip for nodes/ways/relations and changesets with discussions; xml_file_roundtrip over several buffers, header and change-file theorems (under ExpatContract). Known finding: xml-u32-max:changeset.',
+    'C02': 'spec encoders with explicit choice vectors for PBF (field order, dense/plain, granularity, offsets, date granularity, unknown fields, indexdata, table layout, block splitting), o5m (inline vs back-reference per pair, table wrap-around, resets, unknown/sync/jump datasets, o5c) and OPL/XML renderers (attribute order, separators, escape styles, quoting, entity vs char-ref, line endings); files read by the real Reader and by the model decoders. Proved at full strength: pbf_decode_spec, o5m_table_ring + o5m_decode_spec, opl_decode_spec, xml_decode_spec (reader half for any XML-1.0-conformant event source + lexical half for the model tokenizer), field-order/unknown-field/any-rank lemmas, any BlobHeader size ≤ 64 KiB.',
     'C03': 'parts so far: o5m (cursor-program model with explicit `oob`, o5m_reads_in_bounds, hostile tier under ASan+UBSan in both build modes); PBF/text/layout parts in progress.',
     'C04': 'Model/Layout + Model/Buf (epochs model reallocation; raw pointers kept across calls become (epoch, offset)); capacity_independent for all scripts/capacities/modes yes|internal; purge_spec; stale-pointer theorem for the repaired ChangesetDiscussionBuilder. Open: alignment half of buf_inv, tree-level built_content (monitored, not proved).',
     'C05': 'in progress (agent c0507).',
@@ -21,7 +21,7 @@ NOTES = {
     'C08': 'Model/WriterSM: OS fault oracle, reliable_write, compressor wrappers over library contracts (GzSpec, BzSpec), writer/pool/write-thread small-step machine; harness interposes write/fsync/close (fopencookie bridge for stdio) and injects faults at every offset.',
     'C09': 'Model/Decomp with zlib/libbz2 as contract parameters; Fixes.all (= code after 20beb73, 0ac7ff4, d74b2ae) is the main line, Fixes.none kept with its refutation witnesses as regression documentation.',
     'C10': 'partial by design: exact-integer geometry core, segment order, duplicate cancellation, sweep, pre-check, orientation, permutation invariance proved; ring building judged by the executable Valid/even-odd spec on generated arrangements (not proved).',
-    'C11': 'in progress: step-level theorems proved, global exactly-once invariant still open.',
+    'C11': 'Model/RelMgr; global theorems for all configurations/relation sets/accepted histories: completed_exactly_once (+ at the last member), incomplete_listed, not_in_any_relation_reported, flush_threshold_irrelevant, members_available_in_callback, shared_member_kept_until_last, released_lookup_absent (code after 5127b06; pre-fix witness kept), stored_members_are_needed.',
     'C12': 'generic Laws structure + one refinement theorem instantiated per implementation; FlexMem for any threshold; mmap growth under the GrowOk contract (`_partial`).',
     'C13': 'coord_parse_exact / ts_roundtrip / ts_parse_valid_fields at full strength for the code after 5d92c23, b0f4fdb, b3b4a84, 2814835; old variants kept with refutations.',
     'C14': 'pass-through and entity tables regenerated from the source for all 0x110000 code points; OPL theorems full (after b6cf5c9); XML round trip `_partial` (XML Chars only: known finding).',
@@ -29,7 +29,7 @@ NOTES = {
     'C16': 'Model/Order; key-function characterisation of the five comparators, strict-weak-order theorems, CheckOrder accepts iff strictly ascending (invariant induction), sorted distinct collections accepted; all pairs over the boundary grid, all short streams, law monitors on triples.',
     'C17': 'parse∘emit theorems for WKB/EWKB/hex, WKT, GeoJSON; factory_spec / degenerate_rejected / double2string_fits full for the code after 5a3ae5e, e768562, d672e4f; printed digits of %.*f checked by execution only.',
     'C18': 'partial by design: tile range/monotonicity/nesting proved for all doubles over an abstract rounding (binary64 RNE instance proved), longitude round trip proved in binary64; lat_to_y accuracy/strict monotonicity/round trip = exhaustive execution (labelled exploration in the evidence).',
-    'C19': 'Model/Mon + QueueSM + PoolSM at lock granularity; 18 theorems over all interleavings; pool exactly-once/destructor theorems `_partial` (local step facts proved, global counting argument missing); trace validation of real runs.',
+    'C19': 'Model/Mon + QueueSM + PoolSM at lock granularity; 23 theorems over all interleavings incl. pool_exactly_once, pool_destructor_joins_after_queued_tasks and pool_destructor_terminates (ranking function under a stated fairness notion); trace validation of real runs.',
     'C20': 'dispatch / iterator-compatibility / wrapper tables regenerated from the source by a dumper; apply_log, dispatch_shape, diffiter_spec and corollaries for all lists; 15 entry points x 27 handler kinds, all diff run-length patterns up to length 7.',
 }
 
